@@ -62,7 +62,12 @@ def worker_main(args) -> int:
     try:
         if hasattr(mon, "setup_worker"):
             mon.setup_worker(ctx)
-        gen = mon.cases_boundscheck(args.tier, args.seed) if args.mode == "boundscheck" else mon.cases(args.tier, args.seed)
+        if args.mode == "optimised":
+            # the quick case stream in an interpreter started with -O (assert statements and `if __debug__:` blocks compiled away)
+            ctx.tier = "quick"
+            gen = mon.cases("quick", args.seed)
+        else:
+            gen = mon.cases_boundscheck(args.tier, args.seed) if args.mode == "boundscheck" else mon.cases(args.tier, args.seed)
         budget = float(os.environ.get("VERIF_SHARD_BUDGET_S") or 0)
         for i, case in enumerate(gen):
             if i % args.nshards != args.shard:
@@ -140,7 +145,7 @@ def run_workers(prop, tier, seed, jobs, mode, timeout_s, extra_env=None):
             if os.path.exists(p):
                 os.unlink(p)
         cmd = [
-            sys.executable, "-X", "faulthandler", "-m", "vlib.main", prop, "--worker",
+            sys.executable, *(["-O"] if mode == "optimised" else []), "-X", "faulthandler", "-m", "vlib.main", prop, "--worker",
             "--tier", tier, "--seed", str(seed), "--shard", str(shard),
             "--nshards", str(jobs), "--out", out, "--mode", mode,
         ]
@@ -273,6 +278,18 @@ def parent_main(args) -> int:
         results += r2
         problems += p2
         modes.append("boundscheck")
+    if tier == "thorough" and getattr(mon, "OPTIMISED_PASS", True) and not os.environ.get("VERIF_NO_OPT_PASS"):
+        # third pass: the quick workload under `python -O` (PYTHONOPTIMIZE is inherited by every child the monitor starts)
+        r4, p4 = run_workers(prop, tier, seed, jobs, "optimised", timeout_s, extra_env={"PYTHONOPTIMIZE": "1"})
+        for r in r4:
+            r["counters"] = {f"opt:{k}": v for k, v in r["counters"].items()}
+            r["counters"]["opt:evaluations_under_python_O"] = r["evaluations"]
+            r["nontrivial"] = []
+            for v in r["violations"]:
+                v.setdefault("detail", {})["interpreter"] = "python -O"
+        results += r4
+        problems += p4
+        modes.append("python-O")
     if getattr(mon, "SUITE_CONTRACTS", False) and tier == "thorough":
         r3, why = run_suite_with_contracts(prop)
         if r3 is not None:
@@ -304,6 +321,8 @@ def parent_main(args) -> int:
     for name in required:
         if tot["counters"].get(name, 0) <= 0:
             inconclusive.append(f"required monitor/regime counter '{name}' stayed at zero")
+    if "python-O" in modes and tot["counters"].get("opt:evaluations_under_python_O", 0) <= 0:
+        inconclusive.append("the pass under python -O performed no evaluations")
     if tot["evaluations"] == 0:
         inconclusive.append("no evaluations performed")
 
@@ -352,6 +371,10 @@ def replay_main(args) -> int:
     with open(args.replay) as fh:
         rec = json.load(fh)
     case = rec["case"]
+    if (rec.get("detail") or {}).get("interpreter") == "python -O" and not sys.flags.optimize:
+        # the witness was observed in an optimised interpreter: replay it in one
+        os.environ["PYTHONOPTIMIZE"] = "1"
+        os.execv(sys.executable, [sys.executable, "-O", "-m", "vlib.main", *sys.argv[1:]])
     if isinstance(case, dict) and "suite_test" in case:
         # a contract fired while the repository's own test ran: re-run that test under the contracts
         out = os.path.join(ROOT, ".work", f"suite-replay-{os.getpid()}.json")
